@@ -1,6 +1,6 @@
 (* C20 - equality is an equivalence and agrees with hashing.  Statements only; proofs in Proofs/EqProofs.v.
    eqv e := e is reflexive, symmetric and transitive (as a boolean relation). *)
-From ML Require Import Model.Types gen.Tables Model.Pitch Model.Ton Model.Code Model.Copy Proofs.TonProofs Proofs.EqProofs Proofs.CopyProofs.
+From ML Require Import Model.Types gen.Tables Model.Pitch Model.Ton Model.Code Model.Copy Proofs.TonProofs Proofs.EqProofs Proofs.CopyProofs Model.Tags Proofs.TagsProofs Proofs.TagOrderEq.
 From Coq Require Import QArith.
 Open Scope Z_scope.
 
@@ -25,6 +25,19 @@ Proof. exact ton_enharmonic. Qed.
 (* melodies: equality of the printed code, which is also what is hashed *)
 Theorem C20_equiv_melody : eqv melody_eqb.
 Proof. exact melody_eqb_eqv. Qed.
+
+(* ... and that code lists a note's tags in sorted order, so it is a function of the tag SET: however the set was built (any
+   insertion order, members removed in between), the printed list is the same, has exactly the set's members, and two melodies
+   whose notes differ only in the order their tags are listed are equal (and hash alike: the hash is the hash of the code) *)
+Theorem C20_tag_text_canonical : forall l l', Permutation.Permutation l l' -> sort_tags l = sort_tags l'.
+Proof. exact sort_tags_canonical. Qed.
+
+Theorem C20_tag_text_members : forall l x, In x (sort_tags l) <-> In x l.
+Proof. exact sort_tags_members. Qed.
+
+Theorem C20_tag_order_irrelevant : forall m m', same_up_to_tag_order m m' ->
+  melody_eqb m m' = true /\ map note_code m' = map note_code m.
+Proof. intros m m' H. split; [exact (melody_eqb_tag_order m m' H)|exact (codes_retag m m' H)]. Qed.
 
 (* chords (part dictionaries have unique keys): equivalence, whatever the part order *)
 Theorem C20_equiv_chord :
